@@ -15,4 +15,18 @@ CHECKS = {
         jobs=[dict(pkg="codec", test="TestC17", quick=40000, thorough=1500000, shards=16)],
         assumptions=["values contain no SOH and are non-empty; Float text judged by a validity predicate (plain decimal, bit-exact round trip)"],
     ),
+    "C02": dict(
+        level="exploration",
+        rule="generated (template, population, values) incl. decoy strings, nesting to depth 4 and all tests/fix44 types; serialized by the library, parsed by both parser entry points into a fresh message, compared leaf by leaf with the generated model, and re-serialized; non-trivial = a group with >=2 entries, or >=3 value types populated, or a decoy value; distinct by serialized bytes",
+        jobs=[dict(pkg="codec", test="TestC02", quick=30000, thorough=1000000, shards=16)],
+        need_classes=["depth=[3-9]", "max-entries=[2-9]", "with-decoy", "type:Bool", "type:Uint", "type:Float", "type:Time", "type:Raw", "fix44:MarketDataRequest"],
+        assumptions=["C02's preconditions hold by construction: unique tags per template, every entry populates its first field, no empty value, no SOH", "trailer fields are not populated (the serializer drops them: known finding of C17)"],
+    ),
+    "C18": dict(
+        level="exploration",
+        rule="REF-assembled, correctly framed messages over generated templates with prefix/suffix tag families, decoy values 't=..' for template tags and foreign fields whose tag is an affix relative of a template tag; oracle (a) fix.ValueByTag vs an independent tokenizing lookup for every template tag and affix variants, (b) Unmarshal result equals the model; non-trivial = message contains a decoy value or an affix-related foreign field; distinct by message bytes",
+        jobs=[dict(pkg="codec", test="TestC18", quick=40000, thorough=1500000, shards=16)],
+        need_classes=["decoy-value", "foreign:template-tag-is-suffix", "foreign:template-tag-is-prefix", "foreign:suffix-of-template-tag", "foreign:prefix-of-template-tag"],
+        assumptions=["messages are well formed: BeginString first, correct BodyLength/CheckSum, unique template tags, non-empty SOH-free values"],
+    ),
 }
